@@ -114,7 +114,7 @@ class NDesc(object):
         for i, n in enumerate(self.nodes):
             f = n['final'] if finals is None else finals[i]
             o += [i, int(bool(f)), len(n['cbs'])] + list(n['cbs'])
-        return o + [len(self.mcbs)] + list(self.mcbs) + [int(self.machine_final_attr())]
+        return o + [len(self.mcbs)] + list(self.mcbs)
 
 
 def enc_tree(t):
@@ -536,8 +536,7 @@ class NRun(object):
             for c, r in zip(desc.nodes[i]['cbs'], desc.reg(i)):
                 if r == 2:
                     getattr(self.machine, 'on_final_' + desc.full_name(i))(self.final_rec(i, c))
-        if bool(getattr(self.machine, 'final', False)) != desc.machine_final_attr():
-            raise common.MachineryError('machine_final_attr of the description disagrees with the machine object')
+
 
     # -- recorders ---------------------------------------------------------------------------
     def snap(self):
